@@ -58,7 +58,7 @@ class Public(Case):
 
     def inputs(self, mk):
         p = self.params
-        return dict(specs=[shell_spec(mk, "ABCD"[i], l, K, M) for i, (l, K, M) in enumerate(zip(p["ls"], p["Ks"], p["Ms"]))],
+        return dict(specs=cm.specs_from(mk, p),
                     C=[mk.var("C" + x) for x in "xyz"])
 
     def code(self, I, mk):
@@ -83,7 +83,7 @@ class ZeroIsOverlap(Case):
 
     def inputs(self, mk):
         p = self.params
-        return dict(specs=[shell_spec(mk, "ABCD"[i], l, K, M) for i, (l, K, M) in enumerate(zip(p["ls"], p["Ks"], p["Ms"]))],
+        return dict(specs=cm.specs_from(mk, p),
                     C=[mk.var("C" + x) for x in "xyz"])
 
     def code(self, I, mk):
@@ -106,7 +106,7 @@ class Shift(Case):
 
     def inputs(self, mk):
         p = self.params
-        return dict(specs=[shell_spec(mk, "ABCD"[i], l, K, M) for i, (l, K, M) in enumerate(zip(p["ls"], p["Ks"], p["Ms"]))],
+        return dict(specs=cm.specs_from(mk, p),
                     C=[mk.var("C" + x) for x in "xyz"], d=[mk.var("d" + x) for x in "xyz"])
 
     def _lower(self):
@@ -155,6 +155,12 @@ def cases(tier):
             step = 9 if tier == "quick" else 16
             for i in range(0, len(scr), step):
                 out.append(Block(la=la, lb=lb, Ka=1, Kb=1, Ma=1, Mb=1, orders=[list(t) for t in scr[i:i + step]]))
+    if tier == "quick":
+        # the top of the property's ranges (g shells, order 4) also in the quick tier, on short order lists
+        for la, lb in [(4, 0), (0, 4), (3, 3)]:
+            out.append(Block(la=la, lb=lb, Ka=1, Kb=1, Ma=1, Mb=1, orders=[[1, 0, 0], [0, 2, 1]]))
+        for la, lb in [(0, 0), (1, 0), (0, 2)]:
+            out.append(Block(la=la, lb=lb, Ka=1, Kb=1, Ma=1, Mb=1, orders=[[4, 0, 0], [0, 3, 1], [0, 0, 4]]))
     for la, lb in [(1, 0), (1, 1), (2, 1)]:
         out.append(Block(la=la, lb=lb, Ka=2, Kb=1, Ma=1, Mb=2, orders=[[1, 0, 2], [0, 0, 0], [2, 1, 0]]))
     # all orderings of a 3-element list
@@ -162,6 +168,7 @@ def cases(tier):
         out.append(Block(la=1, lb=1, Ka=1, Kb=1, Ma=1, Mb=1, orders=[list(t) for t in perm]))
     out.append(Public(ls=[0, 1], types="cc", Ks=[2, 1], Ms=[1, 2], orders=[[1, 0, 0], [0, 1, 1]]))
     out.append(Public(ls=[2, 1], types="sc", Ks=[1, 1], Ms=[1, 1], orders=[[0, 0, 2], [1, 1, 0]]))
+    out.append(Public(ls=[1, 1, 0], types="ccc", Ks=[1, 1, 1], Ms=[1, 1, 1], orders=[[1, 0, 1], [0, 2, 0]], twin={"1": 0}, share={"2": 0}))
     out.append(ZeroIsOverlap(ls=[1, 2], types="cs", Ks=[2, 1], Ms=[1, 1]))
     out.append(Shift(ls=[1, 0], types="cc", Ks=[1, 1], Ms=[1, 1], order=[2, 1, 0]))
     out.append(Shift(ls=[1, 1], types="cc", Ks=[1, 1], Ms=[1, 1], order=[1, 1, 1]))
@@ -171,7 +178,6 @@ def cases(tier):
             out.append(Block(la=la, lb=lb, Ka=1, Kb=1, Ma=1, Mb=1, orders=[[4, 0, 0], [0, 4, 1], [2, 0, 4], [4, 4, 4]]))
         for la, lb in [(4, 0), (0, 4), (4, 2), (3, 4)]:
             out.append(Block(la=la, lb=lb, Ka=1, Kb=1, Ma=1, Mb=1, orders=[[1, 0, 0], [0, 2, 1], [3, 0, 2]]))
-        out.append(Public(ls=[2, 2], types="ss", Ks=[1, 2], Ms=[1, 1], orders=[[2, 0, 1], [0, 3, 0]]))
         out.append(Public(ls=[3, 1], types="cs", Ks=[1, 1], Ms=[1, 1], orders=[[1, 1, 1]]))
         out.append(ZeroIsOverlap(ls=[0, 1, 2], types="csc", Ks=[1, 2, 1], Ms=[2, 1, 1]))
         out.append(Shift(ls=[2, 1], types="cc", Ks=[1, 1], Ms=[1, 1], order=[2, 2, 1]))
@@ -183,7 +189,7 @@ def cases(tier):
 def main(tier="quick", seed=0, only=None):
     cs = cm.parse_only(cases(tier), only)
     bounds = {
-        "angular_momenta": "every (la, lb) <= 2 (quick) / <= 3 (thorough), enumerated; thorough adds four pairs with l = 4 on three order triples",
+        "angular_momenta": "every (la, lb) <= 2 (quick) / <= 3 (thorough), enumerated; quick adds (4,0), (0,4), (3,3) on two triples and three low pairs on triples with an order 4; thorough adds four pairs with l = 4 on three order triples",
         "orders": "every order triple with each order <= 2 (quick) / <= 3 (thorough), enumerated, passed as scrambled lists; all 6 orderings of one 3-element list; thorough adds four triples with an order 4 for four low-l pairs",
         "origin": "symbolic (covers on-centre, off-centre, far)", "primitives": "K <= 2", "segments": "M <= 2",
         "outside": "floating-point rounding; K > 2; more than 3 shells",
